@@ -58,7 +58,11 @@ func (sv structValue) PropertyValue(index Value) Value {
 			// unexported field: not accessible (reflect would panic)
 			return nilValue
 		}
-		fv := sr.FieldByName(field.Name)
+		fv, err := sr.FieldByIndexErr(field.Index)
+		if err != nil {
+			// the field is promoted through an embedded pointer that is nil
+			return nilValue
+		}
 		if fv.Kind() == reflect.Func {
 			return sv.invoke(fv)
 		}
